@@ -175,8 +175,14 @@ class Model:
     """One long-lived modelrun process; request/response one line each."""
 
     def __init__(self):
+        def big_stack():  # recordings of concurrent runs are lists of 10^5..10^6 tokens; OCaml's List.map recurses
+            import resource
+            try:
+                resource.setrlimit(resource.RLIMIT_STACK, (resource.RLIM_INFINITY, resource.RLIM_INFINITY))
+            except (ValueError, OSError):
+                pass
         self.p = subprocess.Popen(
-            [MODELRUN], stdin=subprocess.PIPE, stdout=subprocess.PIPE, text=True, bufsize=1 << 16
+            [MODELRUN], stdin=subprocess.PIPE, stdout=subprocess.PIPE, text=True, bufsize=1 << 16, preexec_fn=big_stack
         )
 
     def ask(self, line):
